@@ -467,8 +467,10 @@ def _belt_worker(args):
             for prop, clause, msg in belt.oracle(c, r):
                 if prop != pid or (c.get("odd_length") and clause not in ("capacity", "exact-travel", "min-travel")):
                     continue
+                if clause == "stall-crash" and not _belt_on_grid(c):
+                    continue        # off the slot grid / two producers: the failure is the listed C12 finding (accumulating-order)
                 tagc = "[%s/%s%s%s]" % (_belt_tag(c), "odd-length/" if c.get("odd_length") else "",
-                                        "grid/" if clause in ("acc-overlap", "acc-exit-shared", "order", "crash") and c["acc"] and _belt_on_grid(c) else "", clause)
+                                        "grid/" if clause in ("acc-overlap", "acc-exit-shared", "order", "crash", "stall-crash") and c["acc"] and _belt_on_grid(c) else "", clause)
                 if tagc not in seen:
                     seen.add(tagc)
                     out["viol"].append(dict(**{"class": "belt"}, message=tagc + " " + msg, case=c))
